@@ -135,7 +135,7 @@ func RunC18(d *Driver) *Report {
 	type tf struct {
 		name, content string
 		mode          os.FileMode
-		symlink       bool // the path given to evy fmt is a symbolic link to the file
+		symlink       bool   // the path given to evy fmt is a symbolic link to the file
 		formatted     string // for a txtar archive: the archive with its .evy members formatted
 	}
 	files := []tf{
